@@ -20,8 +20,10 @@ from sa.patheval import Interp, Native, Obj, Raise, Sym, Top
 class ScriptReader(Native):
     """Bit reader whose reads return the next scripted value."""
 
-    def __init__(self, values):
+    def __init__(self, values, data_end_is_error=False):
         self.values, self.k, self.log = list(values), 0, []
+        # (for re-runs of a walk that got through with the same script before: asking for more is reading past the end of the data)
+        self.data_end_is_error = data_end_is_error
 
     def __repr__(self):
         return 'ScriptReader@%d' % self.k
@@ -31,6 +33,9 @@ class ScriptReader(Native):
             return 0
         if name.startswith('read') or name == 'skip':
             if self.k >= len(self.values):
+                if self.data_end_is_error:
+                    self.log.append((name, tuple(args)))
+                    raise Raise('BitReadError', node, interp.where(node, frame))
                 raise AnalysisError('pipeline fold: the template reads more values than the script provides (%s%r after %d reads)' % (name, tuple(args), self.k))
             v = self.values[self.k]
             self.k += 1
